@@ -505,7 +505,7 @@ func scenC06(x *Exec) {
 	for i := 0; i < nsteps; i++ {
 		k := "send"
 		if p.AMode == "adversary" {
-			k = []string{"send", "send", "send", "sleep", "pause", "resume", "down", "up", "blackhole", "unblackhole", "closeafter"}[g.Pick(11)]
+			k = []string{"send", "send", "send", "sleep", "pause", "resume", "down", "up", "blackhole", "unblackhole", "closeafter", "removeA"}[g.Pick(12)]
 		} else {
 			k = []string{"send", "send", "sleep"}[g.Pick(3)]
 		}
@@ -520,6 +520,8 @@ func scenC06(x *Exec) {
 			st.N = []int{1, 20, 150, 1100, 11000}[g.Pick(5)]
 		case "closeafter":
 			st.N = 1 + g.Intn(3000)
+		case "removeA":
+			st.N = 20 + g.Intn(200) // lines a second dispatcher hands over while the destination is being removed
 		}
 		p.Steps = append(p.Steps, st)
 	}
@@ -588,8 +590,39 @@ func scenC06(x *Exec) {
 		}
 		var handed [][]byte
 		adversarial := false
+		removed, bgRunning, bgDone := false, 0, 0
 		for _, st := range p.Steps {
 			switch st.Kind {
+			case "removeA":
+				// the bad endpoint's destination is deleted at runtime while a second dispatcher keeps handing lines to the
+				// route: whatever state the connection is in (wedged in a write to a black hole, say), no hand-off may get
+				// stuck.  The admin call itself may take as long as it likes.
+				if removed {
+					continue
+				}
+				removed = true
+				adversarial = true
+				var lines [][]byte
+				for i := 0; i < st.N; i++ {
+					l := mkLine("c06", len(handed), 30+g.Intn(60), g)
+					handed = append(handed, l)
+					lines = append(lines, l)
+				}
+				bgRunning++
+				s.Spawn("dispatcher2", "client", "harness", func() {
+					for _, l := range lines {
+						rt.Dispatch(l)
+						simrt.Yield("dispatch2-returned")
+					}
+					bgDone++
+					cond.Broadcast()
+				})
+				s.Spawn("admin", "admin", "relay1", func() {
+					rt.DelDestination(0)
+					simrt.Yield("deldest-returned")
+					s.Probe("c06.removal_returned")
+				})
+				s.Probe("c06.a_removed_under_traffic")
 			case "send":
 				for i := 0; i < st.N; i++ {
 					l := mkLine("c06", len(handed), 30+g.Intn(60), g)
@@ -628,6 +661,10 @@ func scenC06(x *Exec) {
 				epA.CloseAfter = st.N
 				adversarial = true
 			}
+		}
+		if bgRunning > 0 && !cond.Wait(func() bool { return bgDone == bgRunning }, time.Now().Add(5*time.Minute)) {
+			s.Fail(prop+":handoff-blocked", "a hand-off that raced with the removal of the bad endpoint's destination has not returned after 5 simulated minutes\n%s", s.Describe())
+			return
 		}
 		// steady-state accounting
 		epA.Paused = false
